@@ -221,6 +221,14 @@ def r5(chk, ctx, st):
         f = _methods(st, cls)["__setitem__"]
         txt = [norm(s) for s in ast.walk(f.node) if isinstance(s, ast.stmt)]
         ok = "self.redis.delete(k)" in txt and any(t.startswith("if value:") for t in txt) and any("raise TypeError" in t for t in txt) and any("isinstance(value, %s)" % typ in t for t in txt)
+        dele = [s for s in body_nodes(f) if isinstance(s, ast.Expr) and norm(s) == "self.redis.delete(k)"]
+        store = [s for s in body_nodes(f) if isinstance(s, ast.If) and norm(s.test) == "value"]
+        same = False
+        if len(dele) == 1 and len(store) == 1:
+            blk = getattr(st.parent(dele[0]), "body", []) + getattr(st.parent(dele[0]), "orelse", [])
+            same = any(x is store[0] for x in blk) and dele[0].lineno < store[0].lineno and \
+                any(isinstance(c, ast.Call) and callname(c) in ("RedisStore.RedisDict", "RedisStore.RedisList") and c.args and norm(c.args[0]) == "value" for c in ast.walk(store[0]))
+        ok = ok and same
         chk.ob("C20.R5", "%s.__setitem__ replaces the whole value (delete, then store if non-empty)" % cls, ok, "", key="%s.__setitem__ | replace semantics" % cls, where=f.where(), message="what was last written under a key is what is read back")
 
 
